@@ -551,6 +551,32 @@ def make_scheduler(spec, observer=None, crash_at=None, shift=0):
     return a
 
 
+def warmed_up_scheduler(spec, observer, crash_at, shift):
+    """One scheduler object for a whole series of experiments: it has already served a complete
+    run of the same experiment (its own network, EVs, queue and simulator, all finished by now)
+    and is then attached to the simulator under test with update_scheduler()."""
+    import contextlib
+    import io
+
+    sched = make_scheduler(dict(spec, decoy=None), None, None, shift)
+    warm = build_sim(dict(spec, handed_down=False, decoy=None, late_fill=False, queue_preused=None), shift=shift, scheduler=sched)
+    orig = np.random.normal
+    np.random.normal = NoiseFeed(spec.get("zs") or [0.0])
+    try:
+        with warnings.catch_warnings(), contextlib.redirect_stdout(io.StringIO()):
+            warnings.simplefilter("ignore")
+            warm.sim.run()
+    finally:
+        np.random.normal = orig
+    # the harness' own bookkeeping starts afresh; the algorithm object is the used one
+    sched.submitted = {}
+    if isinstance(sched, Scripted):
+        sched.ncalls, sched.malformed_done, sched._out = 0, False, {}
+    sched.observer, sched.crash_at, sched.crashed = observer, crash_at, False
+    sched.decoy, sched.decoy_parent = spec.get("decoy"), spec
+    return sched
+
+
 class Handle:
     def __init__(self, spec, sim, net, evs, scheduler):
         self.spec, self.sim, self.net, self.evs, self.scheduler = spec, sim, net, evs, scheduler
@@ -569,11 +595,14 @@ def build_sim(spec, observer=None, crash_at=None, shift=0, net_cls=ChargingNetwo
     if spec.get("late_fill"):
         # the simulator is built around a still-empty queue object which the caller fills afterwards
         late, q = q, EventQueue()
-    if scheduler is None:
+    handed_down = bool(spec.get("handed_down")) and scheduler is None
+    if handed_down:
+        scheduler = warmed_up_scheduler(spec, observer, crash_at, shift)
+    elif scheduler is None:
         scheduler = make_scheduler(spec, observer, crash_at, shift)
     sim = Simulator(
         net,
-        scheduler,
+        Scripted([], None) if handed_down else scheduler,
         q,
         parse_start(spec),
         period=spec["period"],
@@ -581,6 +610,9 @@ def build_sim(spec, observer=None, crash_at=None, shift=0, net_cls=ChargingNetwo
         store_schedule_history=bool(spec.get("store_history")),
         verbose=bool(spec.get("verbose")),
     )
+    if handed_down:
+        # the documented way to give a simulator its algorithm after construction
+        sim.update_scheduler(scheduler)
     if late is not None:
         q.add_events([e for _, e in late.queue])
     return Handle(spec, sim, net, evs, scheduler)
@@ -1003,6 +1035,8 @@ def scenario_labels(spec):
         labels.add("user_defined_event_subclasses")
     if spec.get("decoy"):
         labels.add("second_site_same_ids_simulated_" + ("inside_a_scheduler_call" if spec["decoy"]["mode"] == "nested" else "first"))
+    if spec.get("handed_down"):
+        labels.add("scheduler_object_already_served_another_simulator")
     if spec["stations"][0]["id"] in ODD_ID_POOL:
         labels.add("free_text_station_ids")
     return labels
